@@ -424,6 +424,24 @@ type genOpt struct {
 var aligns = [][2]uint8{{0, 0}, {4, 2}, {8, 0}, {4, 0}, {2, 1}, {8, 6}, {4, 3}, {1, 0}}
 
 func genOpts(rng *rand.Rand) []genOpt {
+	if rng.Intn(10) == 0 {
+		// boundary: the largest extensions ExtLen can describe (1024 / 1020 / 1016 bytes incl. the 2-byte base)
+		total := []int{1022, 1018, 1014}[rng.Intn(3)]
+		var out []genOpt
+		for total > 0 {
+			dl := 255
+			if total < 257 {
+				dl = total - 2
+			} else if total-257 == 1 { // never leave a single byte (an option needs 2)
+				dl = 254
+			}
+			o := genOpt{t: uint8(2 + rng.Intn(254)), data: make([]byte, dl)}
+			rng.Read(o.data)
+			out = append(out, o)
+			total -= dl + 2
+		}
+		return out
+	}
 	n := []int{0, 1, 1, 2, 3, 5}[rng.Intn(6)]
 	var out []genOpt
 	budget := 900
